@@ -134,7 +134,7 @@ UpdAccepts(id, old, v) ==
      LET x == RemVal(i, mIdx[i], id, old) IN Indexed(i, v) => CanInsert(i, x, id, Terms[i][v])
 
 UpdCall(id, v) ==
-  /\ Idle /\ id \in mIds /\ dDoc[id] # NoDoc /\ dDoc[id] # v
+  /\ Idle /\ id \in mIds /\ dDoc[id] # NoDoc      \* (the new value may equal the stored one)
   /\ cur' = [op |-> "update", id |-> id, val |-> v, prev |-> dDoc[id]]
   /\ pc' = "upd_intent"
   /\ UNCHANGED <<durable, volatile, nextSeq, ackedIds>>
